@@ -71,7 +71,9 @@ def gen_expr(rng, depth):
         return [rng.choice(["-", "!", "~"])] + a[0], 12
     if x < 0.22:
         c = fit(gen_expr(rng, depth - 1), 2)
-        a = gen_expr(rng, depth - 1)
+        # the OKL expression parser does not read `a ? b ? c : d : e` (a conditional directly in the middle
+        # operand): a conditional in the middle is put in parentheses
+        a = fit(gen_expr(rng, depth - 1), 2)
         b = gen_expr(rng, depth - 1)
         return c[0] + ["?"] + a[0] + [":"] + b[0], 1
     op, p = rng.choice(BINOPS)
@@ -110,11 +112,11 @@ def gen_loop(rng, tier, small):
     cmp_ = rng.choice(["lt", "le", "gt", "ge"])
     side = rng.choice(["L", "L", "R"])
     asc = (cmp_ in ("lt", "le")) == (side == "L")
-    if rng.random() < 0.9:
+    if rng.random() < 0.96:
         upd = rng.choice(["inc", "pinc", "add", "add"] if asc else ["dec", "pdec", "sub", "sub"])
     else:
         upd = rng.choice(["inc", "pinc", "add", "dec", "pdec", "sub"])       # possibly moving away from the bound
-    const = rng.random() < 0.08
+    const = rng.random() < 0.05
     depth = rng.choice([0, 1, 1, 2] if not small else [0, 0, 1])
 
     def operand(minp):
@@ -146,14 +148,18 @@ def gen_case(rng, tier):
 
 
 def exhaustive_shapes():
-    """every comparison x side x update, with a bound that is an operator expression and run-time values that make
-    the loop non-empty, exactly empty and over-empty; one loop per kind"""
+    """every comparison x side x update that moves towards the bound (24 shapes) x 5 bound forms, plus every comparison
+    x side with the three updates that move away from it (rejected); run-time values that make the loop non-empty,
+    exactly empty and over-empty; one loop per kind"""
     cases = []
     for cmp_ in ("lt", "le", "gt", "ge"):
         for side in ("L", "R"):
             asc = (cmp_ in ("lt", "le")) == (side == "L")
-            for upd in ("inc", "pinc", "dec", "pdec", "add", "sub"):
-                for bound in (["M", "+", "1"], ["M", "<<", "1"], ["M"], ["-", "M"], ["(", "N", "?", "M", ":", "2", ")"]):
+            good = ("inc", "pinc", "add") if asc else ("dec", "pdec", "sub")
+            bad = ("dec", "pdec", "sub") if asc else ("inc", "pinc", "add")
+            for upd in good + bad:
+                bounds = (["M", "+", "1"], ["M", "<<", "1"], ["M"], ["-", "M"], ["(", "N", "?", "M", ":", "2", ")"])
+                for bound in (bounds if upd in good else bounds[:1]):
                     init = ["1", "+", "(", "N", "-", "1", ")"] if not asc else ["N", "-", "2"]
                     t = ["K", "1", "1", "env", "5", "2", "0", "1", "env", "2", "2", "1", "2", "env", "1", "7", "3", "3"]
                     t += ["loop", cmp_, side, upd, "i"] + init + ["b"] + bound
@@ -347,9 +353,9 @@ def run(run, tier, seed, replay_case=None):
     cov["rule"] = ("kernels with 1-3 @outer and 1-3 @inner loops; headers drawn from {<,<=,>,>=} x iterator left/right x "
                    "{++it,it++,--it,it--,+=,-=} with initializer/bound/step expressions over N,M,P,Q and literals built from "
                    "every operator class (* / % + - << >> relational equality & ^ | && || ?: unary - ! ~), 3 run-time "
-                   "environments each (non-empty, exactly empty, over-empty loops arise), ~10% headers whose update moves "
-                   "away from the bound, ~8% all-literal headers, plus an enumerated batch of all 48 header shapes x 5 bound "
-                   "forms; non-trivial = an operand is an operator expression and at least one environment visits at least "
+                   "environments each (non-empty, exactly empty, over-empty loops arise), ~4% headers whose update moves "
+                   "away from the bound, ~5% all-literal headers, plus an enumerated batch of the 24 accepted header shapes x 5 "
+                   "bound forms and the 24 rejected shapes; non-trivial = an operand is an operator expression and at least one environment visits at least "
                    "one iteration; distinct = distinct case text")
     k = len(cases)
     cov["samples"] = [dict(case=cases[i], impl=I[i], model=R[i], spec=S[i]) for i in sorted(set([0, k // 2, k - 1]))]
@@ -365,7 +371,8 @@ def run(run, tier, seed, replay_case=None):
         "iterator type int; run-time values small enough that nothing overflows (the 32-bit theorem needs the emitted "
         "expressions to be free of undefined behaviour)",
         "steps are positive at run time (environments where a step is <= 0 are marked OOS on all sides)",
-        "the generator never nests two prefix minus signs (`- -x` prints as `--x`: C15)",
+        "the generator never nests two prefix minus signs (`- -x` prints as `--x`: C15) and never puts a conditional "
+        "directly into the middle operand of a conditional (`a ? b ? c : d : e` is refused by the OKL parser)",
     ]
 
 
